@@ -6,7 +6,7 @@ P=$(python3 -c "import json,sys; print(json.load(open('$D/meta.json'))['property
 S=$(mktemp -d /tmp/mutscratch.XXXXXX)
 rsync -a --exclude _build --exclude .git --exclude _b /repo/ $S/
 if ! (cd $S && git apply --unsafe-paths -p1 --directory=$S $D/patch.diff 2>/dev/null || patch -s -p1 -d $S < $D/patch.diff); then echo "PATCH-FAILED $D"; rm -rf $S; exit 3; fi
-cd /verif && XTL_REPO=$S ./check $P --tier $TIER > $S/out.txt 2>&1; RC=$?
+cd /verif && VERIF_EVIDENCE_DIR=$S/_ev XTL_REPO=$S ./check $P --tier $TIER > $S/out.txt 2>&1; RC=$?
 NV=$(grep -c '^VIOLATION' $S/out.txt)
 echo "== $D property=$P exit=$RC violations=$NV"
 grep -v '^VIOLATION\|^    rule:' $S/out.txt | cut -c1-240 | head -${LINES_SHOWN:-8}
